@@ -22,7 +22,7 @@ ASSUMPTIONS = ["spec/iec62386_tables.py lists every command of the implemented p
                "instance maps are real DeviceInstanceTypeMapper objects resolving every (address, instance) to one type"]
 EXHAUSTIVE = {"quick": False, "thorough": True}
 REQUIRED_ANCHORS = {"all": ["decoded16", "decoded24", "decoded_event", "decoded_other_len", "order_passes",
-                            "fingerprints_compared", "generic_checked", "map_history_decodes", "retained_results_checked", "threaded_decodes"]}
+                            "fingerprints_compared", "generic_checked", "map_history_decodes", "retained_results_checked", "threaded_decodes", "reused_frame_decodes"]}
 SHARD_TIMEOUT = {"quick": 600, "thorough": 3000}
 
 QUICK_DTS = [0, 1, 4, 5, 6, 8, 2, 3, 7, 254, 255]
@@ -325,6 +325,40 @@ def map_histories(cx, res, n, seed):
             res.sample({"map_history": log})
 
 
+def reused_frames(cx, res, n, seed):
+    """A frame object decoded, changed in place (single bits and slices) and decoded again: the result follows the bits the frame
+    holds at the time of the call, whatever was decoded from the same object before."""
+    r = random.Random(f"{seed}:reuse")
+    for t in range(n):
+        nb = r.choice([16, 16, 24, 24, 8, 25])
+        v = r.getrandbits(nb)
+        dt = r.choice([0, 0, 6, 8])
+        mp = r.choice(["none", "none", "t1", "empty"])
+        f = cx.FF(nb, v)
+        for step in range(4):
+            try:
+                got = cx.from_frame(f, dt, cx.maps[mp])
+                fresh = cx.from_frame(cx.FF(nb, v), dt, cx.maps[mp])
+            except Exception as e:
+                res.violation(f"C01/raised/{nb}bit/{type(e).__name__}", f"from_frame raised {type(e).__name__}: {e}",
+                              {"len": nb, "frame": v, "dt": dt, "map": mp, "tb": short_tb(e)})
+                break
+            res.evaluations += 1
+            res.hit("reused_frame_decodes")
+            if type(got) is not type(fresh) or _fi(got) != (nb, v) or str(got) != str(fresh):
+                res.violation("C01/reused-frame-object", f"a frame object changed in place to {v:#x} ({nb} bits) decodes as {got} "
+                              f"[{_fi(got)}]; a fresh frame with those bits decodes as {fresh}", {"len": nb, "frame": v, "dt": dt, "map": mp, "step": step})
+                break
+            if r.random() < 0.6:
+                k = r.randrange(nb)
+                f[k] = not f[k]
+            else:
+                hi = r.randrange(nb)
+                lo = r.randrange(hi + 1)
+                f[hi:lo] = r.getrandbits(hi - lo + 1)
+            v = f.as_integer
+
+
 def threaded(cx, res, n, seed):
     """A pure function gives the same answers to several threads asking at once (a monitor thread decoding bus traffic beside
     the application).  8 threads, tiny switch interval, each thread its own shuffled order of the same cases."""
@@ -459,6 +493,7 @@ def run_shard(desc, tier, seed):
         map_histories(cx, res, desc["n"], seed)
     elif kind == "threads":
         threaded(cx, res, desc["n"], seed)
+        reused_frames(cx, res, desc["n"] // 2, seed)
     fp1 = fingerprint()
     res.hit("fingerprints_compared")
     new_containers = [k for k in fp1 if k not in fp0]
